@@ -1,5 +1,6 @@
 import IstioModel.Common.Wire
 import IstioModel.C16.Model
+import IstioModel.C16.IndexModel
 import IstioModel.C16.Driver
 import IstioModel.C16.JoinModel
 import IstioModel.C16.JoinDriver
@@ -19,6 +20,7 @@ too (no classification is needed in this stream).
     pause <obj> ... resume                                    the queue is held while the changes in between are
                                                               made: schedule [env, ..., env, proc, ..., proc]
     lookup <ns>
+    lateindex | flookup <key>                                 an index created late, any number of keys per object
 
 Answer of every line after `start`: `<sorted events of the step> | <contents>`.
 -/
@@ -37,6 +39,9 @@ structure XState where
   order   : List Bool := []
   /-- state when the queue was held (the events of the whole block are printed at `resume`) -/
   held    : Sys := {}
+  /-- the index created late (`lateindex`; extractor `outFetched`: 0, 1 or several keys per output):
+      `idxBackfill` at creation, then `idxUpdateG` with every delivered event -/
+  late    : Option (AMap (List Key)) := none
 
 def evTok : Event → String
   | .add k v => "A~" ++ k ++ "~" ++ v
@@ -127,6 +132,25 @@ def stepX (x : XState) (toks : List String) : XState × String :=
   | ["lookup", ns] =>
     if x.started then (x, "lookup " ++ showMap (idxLookup x.sys.col ns)) else (x, "lookup not-started")
   | _ => (x, "bad-op")
+
+/-- `stepX` plus the late multi-key index: the functions of `late_index_correct` (IndexModel.lean) are executed
+    on the events the runtime model delivers and compared with the real `Index.Lookup`
+        lateindex            krt.NewIndex on the populated collection
+        flookup <key>        Index.Lookup -/
+def stepXL (x : XState) (toks : List String) : XState × String :=
+  match toks with
+  | ["lateindex"] =>
+    if x.started && !x.paused && x.late.isNone then
+      ({ x with late := some (idxBackfill outFetched x.sys.col.outputs) }, "ok")
+    else (x, "bad-op")
+  | ["flookup", ik] =>
+    match x.late with
+    | none => (x, "flookup no-index")
+    | some ix => (x, "flookup " ++ showMap (idxLookupG ix x.sys.col.outputs ik))
+  | _ =>
+    let r := stepX x toks
+    let evs := r.1.sys.out.drop x.sys.out.length
+    ({ r.1 with late := r.1.late.map (fun ix => evs.foldl (idxUpdateG outFetched) ix) }, r.2)
 
 /-! ### stream `joinx`: the join event-path model (JoinModel.lean) against the real JoinCollection, one
     change at a time (sequential schedule): events of the step and `List()` must be equal. -/
